@@ -18,7 +18,10 @@ RULE = ("generated programs (expressions, statement programs, inheritance chains
         "writelines, and str(make_module(vars)); all must equal render() (or raise the same class); "
         "buffered chunks must equal concat(nonempty[i:i+n]) of the unbuffered pieces; streams whose "
         "buffering is switched (other size / off / dump) after k chunks were read must still "
-        "concatenate to render(). distinct = "
+        "concatenate to render(). Configurations: a third of the programs run with output escaping on "
+        "(Environment(autoescape=True), or the body inside {% autoescape true %}) and with markup-significant "
+        "characters (< > & quotes, ready-made entities) in every template text, so that generate() yields "
+        "str-subclass (Markup) pieces next to plain str pieces and buffered chunks combine both kinds. distinct = "
         "distinct program shapes that produced >= 3 pieces")
 LEVEL_TEXT = "held on the generated programs and buffer sizes only"
 ASSUMPTIONS = ["encodings utf-8 and utf-16 only", "data is not mutated between entry points (fresh iterators per call)"]
@@ -28,11 +31,13 @@ FLOORS = {
     "quick": {"evaluations": 3000, "distinct": 300,
               "counters": {"buffer_rule_checks": 1500, "dump_checks": 800, "with_empty_pieces": 100,
                            "module_checks": 200, "module_history_steps": 300,
-                           "buffer_switch_histories": 400, "dump_error_handler_checks": 800}},
+                           "buffer_switch_histories": 400, "dump_error_handler_checks": 800,
+                           "escaping_cases": 200, "mixed_kind_chunks": 4500}},
     "thorough": {"evaluations": 60000, "distinct": 5000,
                  "counters": {"buffer_rule_checks": 30000, "dump_checks": 16000,
                               "with_empty_pieces": 2000, "module_checks": 4000, "module_history_steps": 6000,
-                              "buffer_switch_histories": 8000, "dump_error_handler_checks": 16000}},
+                              "buffer_switch_histories": 8000, "dump_error_handler_checks": 16000,
+                              "escaping_cases": 4000, "mixed_kind_chunks": 90000}},
 }
 
 
@@ -48,8 +53,17 @@ def outcome_key(o):
     return ("ok", o.value) if o.ok else ("exc", type(o.exc).__name__)
 
 
+MARKUP_CHARS = "<>&'\""
+
+
+def is_safe_piece(p):
+    """A piece that declares itself as markup through the documented __html__ protocol."""
+    return hasattr(p, "__html__")
+
+
 def check_case(ctx, case, tmpdir, is_async=False):
-    env = corpus.make_env(case, enable_async=is_async)
+    kw = {"autoescape": True} if case.get("autoescape") else {}
+    env = corpus.make_env(case, enable_async=is_async, **kw)
     data = lambda: corpus.realize_data(case, env)
     get = lambda: env.get_template(case["main"])
     base = util.capture(lambda: get().render(data()))
@@ -77,7 +91,17 @@ def check_case(ctx, case, tmpdir, is_async=False):
     if len(pieces) != len(nonempty):
         ctx.count("with_empty_pieces")
     if len(nonempty) >= 3:
-        ctx.dist(corpus.shape(case))
+        ctx.dist(corpus.shape(case) + [case.get("escaping")])
+    # reach of the mixed-kind class: pieces of both kinds in this run, and buffered chunks that have to
+    # combine a markup piece with a plain piece that carries markup-significant characters
+    kinds = [is_safe_piece(p) for p in nonempty]
+    if any(kinds):
+        ctx.count("escaping_cases")
+        plain_sig = [not k and any(ch in p for ch in MARKUP_CHARS) for k, p in zip(kinds, nonempty)]
+        for n in range(2, 9):
+            for i in range(0, len(nonempty), n):
+                if any(kinds[i:i + n]) and any(plain_sig[i:i + n]):
+                    ctx.count("mixed_kind_chunks")
     # unbuffered stream
     st = list(get().stream(data()))
     ctx.ev()
@@ -223,16 +247,43 @@ def add_unicode(case):
     return case
 
 
+MARKUP_TEXTS = ["<b>", "</b>", " & ", "&amp;", "<a href=\"x\">", "'q'", "<br/>", "&lt;i&gt;", "\"", " > "]
+
+
+def add_markup(case, rng, mode):
+    """Output-escaping configuration: every template text gets markup-significant characters and escaping
+    is switched on, through the environment option ('env') or an {% autoescape true %} block around the
+    body ('block'; single-template programs only, otherwise the environment option)."""
+    def deco(st):
+        if st[0] == "text":
+            st[1] = st[1] + MARKUP_TEXTS[rng.randrange(len(MARKUP_TEXTS))]
+    for name in sorted(case["asts"]):
+        jast.walk_stmts(case["asts"][name], deco)
+    if mode == "block" and len(case["asts"]) == 1:
+        main = case["main"]
+        case["asts"][main] = [["text", "<p>"], ["autoescape", ["const", True], case["asts"][main]], ["text", "</p>"]]
+        case["escaping"] = "block"
+    else:
+        case["autoescape"] = True
+        case["escaping"] = "env"
+    return case
+
+
 def run(ctx):
     rng = ctx.rng("c10")
+    rng_m = ctx.rng("c10-markup")
     tmpdir = tempfile.mkdtemp(prefix="vt_c10_")
     try:
         n = 800 if ctx.tier == "quick" else 20000
         i = 0
         while ctx.more(i, n, floor=60):
             case = add_unicode(corpus.gen_case(rng))
+            if i % 3 == 1:
+                case = add_markup(case, rng_m, "block" if i % 6 == 1 else "env")
             check_case(ctx, case, tmpdir, is_async=(i % 5 == 4))
             ctx.count("kind_" + case["kind"])
+            if case.get("escaping"):
+                ctx.count("escaping_" + case["escaping"])
             if i < 2:
                 ctx.sample({"sources": corpus.sources(case), "main": case["main"]})
             i += 1
